@@ -23,7 +23,9 @@ class ExportConfigFortran(ExportConfig):
 
     def _parse_scalar(self, param, value):
         if isinstance(param, StringType):
-            value = f"\"{str(value)}\""
+            # a double quote inside a Fortran character literal is written twice
+            value = str(value).replace("\"","\"\"")
+            value = f"\"{value}\""
         elif isinstance(param, BooleanType):
             value = ".true." if value else ".false."
         elif isinstance(param, IntegerType):
